@@ -588,6 +588,27 @@ impl World {
         ev["lis"] = Value::Array(recs);
     }
 
+    /// Every manager still answers queries and accepts updates, and an unrelated entry can be built.
+    fn health(&mut self) -> String {
+        let hid = self.hid;
+        let checks: Vec<(&str, Box<dyn Fn()>)> = vec![
+            ("flow", Box::new(|| { let _ = flow::get_rules(); let _ = flow::load_rules(vec![]); flow::clear_rules(); })),
+            ("iso", Box::new(|| { let _ = isolation::get_rules(); isolation::load_rules(vec![]); isolation::clear_rules(); })),
+            ("hot", Box::new(|| { let _ = hotspot::get_rules(); let _ = hotspot::load_rules(vec![]); hotspot::clear_rules(); })),
+            ("cb", Box::new(|| { let _ = cb::get_rules(); let _ = cb::load_rules(vec![]); cb::clear_rules(); })),
+            ("sys", Box::new(|| { let _ = system::get_rules(); system::load_rules(vec![]); system::clear_rules(); })),
+            ("entry", Box::new(move || {
+                if let Ok(e) = EntryBuilder::new(format!("health#{}", hid)).build() { e.exit(); }
+            })),
+        ];
+        for (name, f) in checks {
+            if let Err(p) = guarded(|| f()) {
+                return format!("bad:{}:{}", name, p.chars().take(80).collect::<String>());
+            }
+        }
+        "ok".into()
+    }
+
     /// Execute one history; returns the events with observations added.
     pub fn exec(&mut self, events: &[Value]) -> Vec<Value> {
         let mut out = Vec::new();
@@ -608,6 +629,10 @@ impl World {
                     self.exit(&mut ev)
                 }
                 "adv" => self.set_clock(&mut ev),
+                "health" => {
+                    self.set_clock(&mut ev);
+                    ev["health"] = json!(self.health());
+                }
                 "probe" => {
                     // enforcement probe: one entry of n tokens, exited at once if admitted
                     self.set_clock(&mut ev);
